@@ -156,6 +156,12 @@ func C18_Run() {
 	if k := verif.Choice("flag", len(c18Flags)+1); k < len(c18Flags) {
 		args = append(args, c18Flags[k])
 	}
+	if verif.Tier() == 1 {
+		// thorough: every pair of flags
+		if k := verif.Choice("flag2", len(c18Flags)+1); k < len(c18Flags) {
+			args = append(args, c18Flags[k])
+		}
+	}
 	how := verif.Choice("input", 4)
 	name := "p.bcl"
 	var names, contents []string
@@ -183,6 +189,21 @@ func C18_Run() {
 		return
 	}
 	verif.Assert(status != 2, "status 2 only for usage errors")
+	// which input the command line really names (after "--" anything is a
+	// file name, e.g. "-t")
+	switch {
+	case ref.file == "-":
+		if stdin == "" {
+			src = ""
+		}
+		name = "/dev/stdin"
+	case len(names) > 0 && ref.file == names[0]:
+		name = ref.file
+	default:
+		verif.Reach("no-such-file")
+		verif.Assert(status == 1 && stdout == "" && len(stderr) > 0, "a missing file is an I/O error: status 1, message on standard error")
+		return
+	}
 	want, failed, errText := c18Library(src, name, ref)
 	if failed {
 		verif.Reach("run-error")
@@ -232,7 +253,7 @@ func C18_Order() {
 
 // C18_Cluster: '-' followed by two symbolic lower-case letters.
 func C18_Cluster() {
-	l := verif.Bytes("letters", 2)
+	l := verif.Bytes("letters", 2+verif.Tier())
 	for _, c := range l {
 		verif.Assume(c >= 'a' && c <= 'z')
 	}
